@@ -14,7 +14,7 @@ from sim.core import Violation, HarnessError
 from sim.world import World, grad_ctx
 
 OPKINDS = ["call", "train", "eval", "restart"]
-STORES = ["plain", "view", "noncontig", "grad", "expand", "feedback"]
+STORES = ["plain", "view", "noncontig", "grad", "expand", "feedback", "chlast"]
 INPLACE_REFUSALS = (
     "is being used in an in-place operation",
     "more than one element of the written-to tensor refers to a single memory location",
@@ -74,7 +74,7 @@ class C13World(World):
     RULE = ("each run: one model drawn from the zoo (every exported transform family incl. couplings, autoregressive, splines, "
             "linear, normalisation, permutations, reshaping, non-linearities, containers; distributions; flows) and a seeded "
             "schedule of calls {forward, inverse, log_prob, sample, sample_and_log_prob, transform_to_noise} by 2-3 clients over "
-            "a pool of argument tensors of six storage kinds, with train()/eval(), rejected calls, interrupts at a seeded line "
+            "a pool of argument tensors of seven storage kinds, with train()/eval(), rejected calls, interrupts at a seeded line "
             "inside nflows frames and crash+restart; after every op: every pooled tensor and its base storage has the same bytes "
             "and _version, in evaluation mode the state_dict is bit-identical, in training mode only documented statistics "
             "changed, and repeated signatures of the deterministic calls (forward, inverse, log_prob, transform_to_noise) return "
@@ -128,6 +128,8 @@ class C13World(World):
             o = dict(op); o.pop("interrupt"); out.append(o)
         if op.get("reject"):
             o = dict(op); o.pop("reject"); out.append(o)
+        if op.get("target") is not None:
+            o = dict(op); o.pop("target"); out.append(o)
         for key in ("x", "ctx"):
             d = op.get(key)
             if isinstance(d, dict):
@@ -159,6 +161,7 @@ class C13World(World):
         self.last_out = {}        # client -> last successful first output tensor
         self.returned = []        # (call, tensor, bytes, version) of the last few results handed to callers
         self.allowed, self.actnorms = documented_statistics(self.root)
+        self.nmode = {pp: bool(self.root.training) for pp in self.allowed[0]}   # mode the caller gave each normalisation layer
         self.last_outcome = "none"
 
     def abstract(self):
@@ -179,13 +182,13 @@ class C13World(World):
                 if d["store"] in ("plain", "grad") and sched.chance(0.5):
                     d["store"] = "grad" if d["store"] == "plain" else "plain"
                 else:
-                    d["store"] = sched.weighted(STORES, [self.cfg["store_w"][k] for k in STORES])
+                    d["store"] = sched.weighted(STORES, [self.cfg["store_w"].get(k, 0) for k in STORES])
                 if d["store"] == "expand" and not d.get("rep"):
                     d["store"] = "grad"
             if rows is not None:
                 d["rows"] = rows
             return d
-        store = sched.weighted(STORES, [self.cfg["store_w"][k] for k in STORES])
+        store = sched.weighted(STORES, [self.cfg["store_w"].get(k, 0) for k in STORES])
         d = {"role": role, "seed": data.seed30(), "rows": rows if rows is not None else data.pick([1, 2, 2, 3, 4]),
              "store": store, "rep": store == "expand" or sched.chance(0.15), "scale": data.pick([1.0, 1.0, 3.0])}
         return d
@@ -193,10 +196,13 @@ class C13World(World):
     def gen_op(self, streams):
         sched, data, fault = streams["sched"], streams["data"], streams["fault"]
         r = sched.random()
-        if r < 0.08:
-            return {"op": "train"}
         if r < 0.18:
-            return {"op": "eval"}
+            op = {"op": "train" if r < 0.08 else "eval"}
+            if self.allowed[0] and sched.chance(0.3):
+                # the caller switches one normalisation layer directly (a frozen, pretrained part inside a model that is
+                # being trained - or the reverse); calls must respect the mode the caller gave each layer
+                op["target"] = sched.randrange(8)
+            return op
         if r < 0.21:
             return {"op": "restart", "seed": data.seed30()}
         e = self.entry
@@ -274,6 +280,10 @@ class C13World(World):
             self.probes["noncontiguous_argument"] += 1
         elif store == "grad":
             t = val.clone().requires_grad_(True)
+        elif store == "chlast" and val.dim() == 4:
+            # NHWC memory behind an NCHW tensor: permute(0, 2, 3, 1).reshape(...) is then a *view* of the caller's storage
+            t = val.clone().contiguous(memory_format=torch.channels_last)
+            self.probes["channels_last_argument"] += 1
         elif store == "expand":
             base = val[:1].clone()
             t = base.expand(rows, *val.shape[1:])
@@ -311,9 +321,23 @@ class C13World(World):
     def step(self, op, log):
         kind = op["op"]
         if kind in ("train", "eval"):
-            (self.root.train if kind == "train" else self.root.eval)()     # the property speaks of calls, not of mode switches
+            prefixes = self.allowed[0]
+            flag = kind == "train"
+            if op.get("target") is not None and prefixes:
+                pre = prefixes[int(op["target"]) % len(prefixes)]
+                mod = self.root.get_submodule(pre[:-1]) if pre else self.root
+                mod.train(flag)
+                self.nmode[pre] = flag
+                for pp in prefixes:          # normalisation layers nested below the target follow it
+                    if pp.startswith(pre):
+                        self.nmode[pp] = flag
+                if any(v != bool(self.root.training) for v in self.nmode.values()):
+                    self.probes["normalisation_layer_in_other_mode_than_root"] += 1
+            else:
+                (self.root.train if flag else self.root.eval)()     # the property speaks of calls, not of mode switches
+                self.nmode = {pp: flag for pp in prefixes}
             self.epoch, self.diff = {}, {}
-            log.add(kind)
+            log.add(kind, op.get("target"))
         elif kind == "restart":
             self.save_bytes("ckpt", self.root.state_dict())
             try:
@@ -330,6 +354,7 @@ class C13World(World):
                 fresh.obj.eval()
             self.entry, self.root = fresh, fresh.obj
             self.allowed, self.actnorms = documented_statistics(self.root)
+            self.nmode = {pp: bool(self.root.training) for pp in self.allowed[0]}
             self.epoch, self.diff = {}, {}
             self.restarts += 1
             self.faults["crash_restart"] += 1
@@ -431,22 +456,30 @@ class C13World(World):
         # ---- invariant 1 is checked by step(); invariants 3 / 4 on the model:
         after = _sd(root)
         changed = sorted(kk for kk in set(after) | set(before) if after.get(kk) != before.get(kk))
-        if not training:
-            if changed:
-                raise Violation("model_state_changed_in_eval", "%s%s changed %s" % (
-                    fn, " (interrupted)" if fired else (" (raised %s)" % type(err).__name__ if err else ""), changed[:6]))
-        else:
-            prefixes, frozen = self.allowed
-            frozen = set(frozen)
-            for (pre, mod), was in zip(self.actnorms, init_before):
-                if not was:
-                    # the documented data-dependent initialisation sets ActNorm's own parameters once
-                    frozen -= {pre + n for n, _ in mod.named_parameters(recurse=True)}
-            extra = [kk for kk in changed if kk in frozen or not any(kk.startswith(pp) for pp in prefixes)]
-            if extra:
-                raise Violation("undocumented_state_changed_in_training", "%s changed %s" % (fn, extra[:6]))
-            if changed:
-                self.probes["training_pass_changed_documented_statistics"] += 1
+        # a key may change only if it belongs to a normalisation layer that the caller left in training mode (the root's
+        # mode unless the caller switched that layer directly) and is not one of its trainable parameters
+        prefixes, frozen = self.allowed
+        frozen = set(frozen)
+        for (pre, mod), was in zip(self.actnorms, init_before):
+            if not was:
+                # the documented data-dependent initialisation sets ActNorm's own parameters once
+                frozen -= {pre + n for n, _ in mod.named_parameters(recurse=True)}
+
+        def _may(kk):
+            return kk not in frozen and any(kk.startswith(pp) and self.nmode.get(pp, training) for pp in prefixes)
+
+        extra = [kk for kk in changed if not _may(kk)]
+        if extra:
+            tail = " (interrupted)" if fired else (" (raised %s)" % type(err).__name__ if err else "")
+            in_eval_layer = [kk for kk in extra if any(kk.startswith(pp) and not self.nmode.get(pp, training) for pp in prefixes)]
+            if not training:
+                raise Violation("model_state_changed_in_eval", "%s%s changed %s" % (fn, tail, extra[:6]))
+            if in_eval_layer and len(in_eval_layer) == len(extra):
+                raise Violation("statistics_changed_in_layer_left_in_eval", "%s%s changed %s of a normalisation layer the "
+                                "caller had put in evaluation mode" % (fn, tail, in_eval_layer[:6]))
+            raise Violation("undocumented_state_changed_in_training", "%s changed %s" % (fn, extra[:6]))
+        if changed:
+            self.probes["training_pass_changed_documented_statistics"] += 1
         if fired:
             self.last_outcome = "interrupted"
             log.add("interrupted")
@@ -482,7 +515,7 @@ class C13World(World):
         if op.get("reject"):
             return
         # ---- invariant 5: order independence in evaluation mode (bitwise)
-        if not training:
+        if not training and not any(self.nmode.values()):
             sig = dict(op)
             sig.pop("client", None)
             if fn in ("forward", "inverse", "log_prob", "transform_to_noise"):
